@@ -123,8 +123,10 @@ type usagePair struct {
 
 // updateUsageQueue zeroes the accumulated usage all ActiveUsers valve and put the usage data im usageUpdateQueue
 func (panel *userPanel) updateUsageQueue() {
-	panel.activeUsersM.Lock()
+	// lock order: usageUpdateQueueM before activeUsersM, as in commitUpdate (the opposite order here could
+	// deadlock two overlapping upload rounds)
 	panel.usageUpdateQueueM.Lock()
+	panel.activeUsersM.Lock()
 	for _, user := range panel.activeUsers {
 		if user.bypass {
 			continue
